@@ -51,6 +51,9 @@ var Table = []func() macaroon.Caveat{
 	13: func() macaroon.Caveat { return &flyio.Mutations{Mutations: []string{"m"}} },
 	14: func() macaroon.Caveat { return &flyio.IsUser{ID: 5} },
 	15: func() macaroon.Caveat { return ptr(auth.MaxValidity(3600)) },
+	// different types whose BODIES encode identically (dedup must key on type + body)
+	18: func() macaroon.Caveat { return ptr(flyio.AllowedRoles(1)) },    // body 01, like 1 (Action r)
+	19: func() macaroon.Caveat { return &auth.ConfineOrganization{ID: 77} }, // body 91 4d, like 8 (ConfineUser 77)
 	// wrappers in which a clean nested wrapper comes BEFORE the attestation
 	16: func() macaroon.Caveat {
 		return &resset.IfPresent{Ifs: macaroon.NewCaveatSet(&resset.IfPresent{Ifs: macaroon.NewCaveatSet(ptr(resset.ActionRead)), Else: 0}, ptr(auth.FlyioUserID(7))), Else: resset.ActionAll}
@@ -170,6 +173,9 @@ func (o Op) Coq() string {
 	case "OVerify":
 		tr := coqw.ListOf(o.Tr, func(t Trust) string { return coqw.Pair(n(t.Loc), coqw.ListOf(t.Keys, coqw.N)) })
 		return coqw.App(o.Kind, n(o.S), n(o.K), coqw.ListOf(o.Slots, coqw.N), tr, coqw.Bool(o.Direct))
+	case "OVerifyObjs":
+		tr := coqw.ListOf(o.Tr, func(t Trust) string { return coqw.Pair(n(t.Loc), coqw.ListOf(t.Keys, coqw.N)) })
+		return coqw.App(o.Kind, n(o.S), n(o.K), coqw.ListOf(o.Slots, coqw.N), tr)
 	case "OSameWire":
 		return coqw.App(o.Kind, n(o.S), n(o.Src))
 	case "OSetTail":
@@ -205,6 +211,38 @@ func (o Op) Coq() string {
 }
 
 func OpsCoq(ops []Op) string { return coqw.ListOf(ops, Op.Coq) }
+
+// SealNonces records the 12-byte AEAD nonce of every verifier key and ticket the library sealed in this process;
+// DupSeal is set when one repeats ("sealing the same content twice never yields the same bytes", C04)
+var (
+	SealNonces = map[string]bool{}
+	DupSeal    string
+	Seals      int
+)
+
+func noteSeals(m *macaroon.Macaroon) {
+	for _, c := range m.UnsafeCaveats.Caveats {
+		c3, ok := c.(*macaroon.Caveat3P)
+		if !ok {
+			continue
+		}
+		for _, b := range [][]byte{c3.VerifierKey, c3.Ticket} {
+			if len(b) < 12 {
+				continue
+			}
+			k := string(b) // the whole sealed value: repeats only if nonce AND content repeat
+			n := "n:" + string(b[:12])
+			if SealNonces[n] && !SealNonces[k] && DupSeal == "" {
+				DupSeal = fmt.Sprintf("AEAD nonce %x used for two different seals (after %d seals in this process)", b[:12], Seals)
+			}
+			if !SealNonces[k] {
+				Seals++
+			}
+			SealNonces[k] = true
+			SealNonces[n] = true
+		}
+	}
+}
 
 // ---- interpreter
 type Env struct {
@@ -351,7 +389,9 @@ func (e *Env) Step(o Op) []int64 {
 				cs = append(cs, Table[a.D.ID]())
 			}
 		}
-		return []int64{b2i(m.Add(cs...) == nil)}
+		err := m.Add(cs...)
+		noteSeals(m)
+		return []int64{b2i(err == nil)}
 	case "OEncode":
 		m, ok := e.Slots[o.S]
 		if !ok {
@@ -429,6 +469,37 @@ func (e *Env) Step(o Op) []int64 {
 			}
 		}
 		set, err := vm.Verify(e.Key(o.K), ds, tr)
+		if err != nil {
+			return []int64{0}
+		}
+		out := []int64{1, int64(len(set.Caveats))}
+		var atts []int64
+		for _, c := range set.Caveats {
+			out = append(out, idOf(c))
+			if hasAtt(c) {
+				atts = append(atts, idOf(c))
+			}
+		}
+		out = append(out, int64(len(atts)))
+		return append(out, atts...)
+	case "OVerifyObjs":
+		m, ok := e.Slots[o.S]
+		if !ok {
+			return nil
+		}
+		var ds []*macaroon.Macaroon
+		for _, s := range o.Slots {
+			if d, ok := e.Slots[s]; ok {
+				ds = append(ds, d)
+			}
+		}
+		tr := map[string][]macaroon.EncryptionKey{}
+		for _, t := range o.Tr {
+			for _, k := range t.Keys {
+				tr[LocStr(t.Loc)] = append(tr[LocStr(t.Loc)], e.Key(k))
+			}
+		}
+		set, err := m.VerifyParsed(e.Key(o.K), ds, tr)
 		if err != nil {
 			return []int64{0}
 		}
